@@ -599,6 +599,60 @@ theorem same_trusted_history_same_view (cfg : Cfg) (g : GSt) (e1 e2 : List GEv)
 example : passing ⟨2, false, [0]⟩ [.msg 0 0 [witA], .distrust 0, .msg 0 0 [witB], .msg 0 1 [witT], .trust 0, .msg 1 0 [witB]] =
     [.msg 0 0 [witA], .distrust 0, .trust 0, .msg 1 0 [witB]] := by decide
 
+/-! ## `Clean` and restart on the same datastore -/
+
+/-- **clean, then redelivery, converges**: a replica that processed any history `pre`, was cleaned
+    (`crdt.Clean` as it is: set, heads AND blockstore wiped) and then received the deltas `l2` — any order,
+    any repetition — holds the same pinset as a replica that never cleaned and received `l1`, whenever `l1`
+    and `l2` contain the same deltas; hypotheses as in `values_converge_partial` (priorities ≥ 1, (H1), (H2))
+    plus: a node id identifies its delta. -/
+theorem clean_then_redeliver_converges (pre l1 l2 : List Delta) (hset : ∀ d, d ∈ l1 ↔ d ∈ l2)
+    (hinj : ∀ d ∈ l1, ∀ d' ∈ l1, d.id = d'.id → d = d')
+    (hprio : ∀ d ∈ l1, 1 ≤ d.prio) (H1 : ∀ d ∈ l1, nodupKeys d) (H2 : MaxSurvives (phasesOf l1)) (k : Key) :
+    (handleAll l2 (handleAll pre {}).clean).rep.viewAt k = (handleAll l1 {}).rep.viewAt k := by
+  have hinj2 : ∀ d ∈ l2, ∀ d' ∈ l2, d.id = d'.id → d = d' :=
+    fun d hd d' hd' => hinj d ((hset d).2 hd) d' ((hset d').2 hd')
+  obtain ⟨m1, e1, s1⟩ := handleAll_fresh l1 hinj
+  obtain ⟨m2, e2, s2⟩ := handleAll_fresh l2 hinj2
+  show (handleAll l2 {}).rep.viewAt k = _
+  rw [e1, e2, mergeAll_eq_runPh, mergeAll_eq_runPh]
+  have h12 : ∀ d, d ∈ m1 ↔ d ∈ m2 := fun d => by rw [s1, s2, hset]
+  have hc : ∀ ph, ph ∈ phasesOf l1 ↔ ph ∈ phasesOf m1 := phasesOf_congr (fun d => (s1 d).symm)
+  exact (values_converge_partial (phasesOf m1) (phasesOf m2) (phasesOf_congr h12)
+    (fun d hd => hprio d ((s1 d).1 ((mem_phasesOf_E m1 d).1 hd)))
+    (fun d hd => H1 d ((s1 d).1 ((mem_phasesOf_E m1 d).1 hd))) (MaxSurvives_congr hc H2) k).symm
+
+/-- the members version needs neither (H1) nor (H2) -/
+theorem clean_then_redeliver_members (pre l1 l2 : List Delta) (hset : ∀ d, d ∈ l1 ↔ d ∈ l2)
+    (hinj : ∀ d ∈ l1, ∀ d' ∈ l1, d.id = d'.id → d = d') (hprio : ∀ d ∈ l1, 1 ≤ d.prio) (k : Key) :
+    (handleAll l2 (handleAll pre {}).clean).rep.member k = (handleAll l1 {}).rep.member k := by
+  have hinj2 : ∀ d ∈ l2, ∀ d' ∈ l2, d.id = d'.id → d = d' :=
+    fun d hd d' hd' => hinj d ((hset d).2 hd) d' ((hset d').2 hd')
+  obtain ⟨m1, e1, s1⟩ := handleAll_fresh l1 hinj
+  obtain ⟨m2, e2, s2⟩ := handleAll_fresh l2 hinj2
+  show (handleAll l2 {}).rep.member k = _
+  rw [e1, e2]
+  exact (members_converge_merge m1 m2 (fun d => by rw [s1, s2, hset]) (fun d hd => hprio d ((s1 d).1 hd)) k).symm
+
+example : (handleAll exHist.reverse (handleAll [witA, witB] {}).clean).rep.viewAt 0 = (handleAll exHist {}).rep.viewAt 0 ∧
+    (handleAll exHist {}).rep.viewAt 0 = some 2 := by decide
+
+/-- the alternative `Clean` that keeps the DAG nodes: the statement above with `cleanKeepBlocks` -/
+def clean_keeping_blocks_converges : Prop :=
+  ∀ (pre l1 l2 : List Delta), (∀ d, d ∈ l1 ↔ d ∈ l2) → (∀ d ∈ l1, ∀ d' ∈ l1, d.id = d'.id → d = d') →
+    (∀ d ∈ l1, 1 ≤ d.prio) → ∀ k,
+    (handleAll l2 (handleAll pre {}).cleanKeepBlocks).rep.member k = (handleAll l1 {}).rep.member k
+
+/-- **refuted**: with the blocks kept, the old deltas count as processed and are never merged again: a
+    replica that held key 0, was cleaned and received everything again (plus a new delta) holds only
+    what was published after the clean. -/
+theorem clean_keeping_blocks_fails : ¬ clean_keeping_blocks_converges := by
+  intro h
+  have := h [witA] [witA, ⟨5, 2, [(1, 4)], []⟩] [⟨5, 2, [(1, 4)], []⟩, witA] (by intro d; simp [or_comm])
+    (by decide) (by decide) 0
+  revert this
+  decide
+
 /-! ### The anchored functions still read as the model was transcribed (regenerated from /repo on every run) -/
 
 theorem gen_source_setup : Gen.setup = Expected.setup := rfl
